@@ -37,6 +37,11 @@ func schedCase(rng *rand.Rand, w *Writer, suite string, kind string, canonical i
 		d.joined = true
 		d.fup0 = []uint16{0, 1, 100, 40000}[rng.Intn(4)]
 		d.fdn0 = []uint16{0, 7, 30000}[rng.Intn(3)]
+		if kind == "regressed" {
+			// a relaxed-counter device whose second frame carries a counter below the stored one
+			d.relaxed = true
+			d.fup0 = []uint16{1, 100, 40000}[rng.Intn(3)]
+		}
 		d.fcnt = d.fup0
 	}
 	md := mkDevice(d.eui, d.appeui, d.addr, d.appkey, d.nwk, d.app, d.fup0, d.fdn0, d.relaxed, state)
@@ -65,6 +70,9 @@ func schedCase(rng *rand.Rand, w *Writer, suite string, kind string, canonical i
 		confirmed := rng.Intn(2) == 0
 		f1 = h.validUplink(d, confirmed, false, d.fcnt, 1+rng.Intn(200), randBytes(rng, rng.Intn(20)), nil)
 		f2 = h.validUplink(d, confirmed, rng.Intn(3) == 0, d.fcnt+1, 1+rng.Intn(200), randBytes(rng, rng.Intn(20)), nil)
+	case "regressed":
+		f1 = h.validUplink(d, true, false, d.fcnt, 1+rng.Intn(200), randBytes(rng, rng.Intn(20)), nil)
+		f2 = h.validUplink(d, true, false, uint16(rng.Intn(int(d.fup0))), 1+rng.Intn(200), randBytes(rng, rng.Intn(20)), nil)
 	case "join-copies":
 		nonce := uint16(rng.Intn(65536))
 		d.lastNonce = nonce
@@ -155,7 +163,6 @@ func schedSuite(suite string, kinds []string, quickN, thoroughN int) suiteFunc {
 		}
 	}
 }
-
 
 // A second copy of a confirmed uplink of a relaxed-counter device arrives through another gateway while the
 // first is waiting for its receive window (real time, no stepping): the scheduler holds one slot per device
